@@ -700,7 +700,7 @@ macro_rules! refresh_err_contract {
                 let sig0 = usk.signature;
                 let e = err_kind(refresh(&mut rng, &mut msk, &mut usk, $keep));
                 assert!(e == $kind, $msg);
-                assert!(id_view(&usk.id) == [Some(ida), Some(idb), None], "C10: a refused refresh does not empty or change the identifier of the user key");
+                assert!(id_view(&usk.id) == [Some(ida), Some(idb), None], "C10/C17: a refused refresh does not empty or change the identifier of the user key (an issued key keeps its registered identifier)");
                 assert!(usk.secrets.len() == 2, "C10: a refused refresh does not empty the user key");
                 let (ka, ca) = uchain(&usk.secrets, 0).unwrap();
                 let (kb, cb) = uchain(&usk.secrets, 1).unwrap();
